@@ -22,6 +22,7 @@ VALUES = [0, 1, -1, 2, -2, 3, -3, 5, -5, 499999, 500000, 500001, -500000, 999999
           1500000, -1500000, 2500000, -2500000, 59999999, 60 * US, -60 * US, 3600 * US, -3600 * US + 1,
           86400 * US - 1, -(86400 * US - 1), 86400 * US, -86400 * US, 86400 * US + 1, 7 * 86400 * US,
           -7 * 86400 * US - 1, 10 ** 12, -(10 ** 12), 10 ** 12 + 1, -(10 ** 12 + 1), 123456789012, 3, 7]
+LONG = [30 * 86400 * US + 1, -(45 * 86400 * US), 366 * 86400 * US, 400 * 86400 * US + 5 * 3600 * US, -(732 * 86400 * US) - 1]
 BIG = [(1 << 45) + 1, -(1 << 45) - 1, (1 << 52) + 1, -(1 << 52) - 3, (1 << 53) - 1]
 NUMS = [1, -1, 2, -2, 3, -3, 4, -4, 7, -7, 10 ** 6, 0.5, -0.5, 1.5, -1.5, 2.5, 0.1, -0.1, 1e-6, 2.0, -2.0,
         -4.0, 0.25, 3.3, 1e6]
@@ -93,6 +94,24 @@ def _compare(acc, pendulum, sub, cls, case, impl_fn, ref_fn, want_type=None):
                 acc.mismatch(sub, f"{cls}:type", case, type(it).__name__, "int|float")
 
 
+def _twins(pendulum, b):
+    out = []
+    D = 86400 * US
+    try:
+        if abs(b) >= 366 * D:
+            sg = 1 if b > 0 else -1
+            out.append(pendulum.Duration(years=sg, microseconds=b - sg * 365 * D))
+        if abs(b) >= 30 * D:
+            sg = 1 if b > 0 else -1
+            out.append(pendulum.Duration(months=sg, microseconds=b - sg * 30 * D))
+        if b > 0:
+            from pendulum.duration import AbsoluteDuration
+            out.append(AbsoluteDuration(microseconds=-b))
+    except Exception:  # noqa: BLE001
+        pass
+    return [t for t in out if obs.td_us(t) == b]
+
+
 def check_pair(acc, pendulum, a, b):
     da, db = mk_dur(pendulum, a), mk_dur(pendulum, b)
     ta, tb = mk_td(a), mk_td(b)
@@ -100,6 +119,12 @@ def check_pair(acc, pendulum, a, b):
         acc.c["seed_not_canonical"] += 1   # C09's business
         return
     case = {"kind": "pair", "a": a, "b": b}
+    # operands that COMPARE EQUAL to b but are built differently (years/months inside, an AbsoluteDuration) are used
+    # first: whatever they leave behind (memoised conversions keyed by equality) must not leak into the operations
+    # of the in-scope operands below.  Their own results are outside the statement and are not judged.
+    for twin in _twins(pendulum, b):
+        for op in (operator.floordiv, operator.truediv, operator.mod, divmod, operator.add, operator.sub):
+            _run(lambda: op(da, twin))
     for oname, op in (("add", operator.add), ("sub", operator.sub)):
         for rname, right in (("Duration", db), ("timedelta", tb)):
             _compare(acc, pendulum, oname, f"D{oname[0]}{rname}", case, lambda: op(da, right),
@@ -204,7 +229,7 @@ def replay_case(case, acc):
 def plan(tier, seed):
     from ..seeds import chunks
     thorough = tier == "thorough"
-    vals = sorted(set(VALUES + [((seed * 7919 + i * 104729) % (2 * 10 ** 9)) - 10 ** 9 for i in range(4)]))
+    vals = sorted(set(VALUES + LONG + [((seed * 7919 + i * 104729) % (2 * 10 ** 9)) - 10 ** 9 for i in range(4)]))
     if thorough:
         vals = sorted(set(vals + BIG + [v * 3 + 1 for v in VALUES] + [-(v * 5) - 2 for v in VALUES]))
     nums = list(NUMS) + ([5, -5, 6, 1 / 3, -2.5, 3.5, 0.75] if thorough else [])
